@@ -22,8 +22,18 @@ use crate::Template;
 const WIN_LO: (i32, u32, u32) = (2019, 1, 1);
 const WIN_HI: (i32, u32, u32) = (2025, 12, 31);
 
+thread_local! {
+    static WINDOW_1900: std::cell::Cell<bool> = const { std::cell::Cell::new(false) };
+}
+
+/// Window of the symbolic dates: 2019..=2025, or the start of the supported range (1899-11-01 ..
+/// 1901-03-01) for the templates tagged `@1900`.
 fn window() -> (NaiveDate, NaiveDate) {
-    (date(WIN_LO.0, WIN_LO.1, WIN_LO.2), date(WIN_HI.0, WIN_HI.1, WIN_HI.2))
+    if WINDOW_1900.with(|w| w.get()) {
+        (date(1899, 11, 1), date(1901, 3, 1))
+    } else {
+        (date(WIN_LO.0, WIN_LO.1, WIN_LO.2), date(WIN_HI.0, WIN_HI.1, WIN_HI.2))
+    }
 }
 
 fn month_num(m: Month) -> u32 {
@@ -208,6 +218,9 @@ pub fn dated_family(thorough: bool) -> Vec<(String, MonthdayRange)> {
     push("y2020_feb29", ymd(29, February, 2020), ymd(29, February, 2020));
     push("y2021_jun12", ymd(12, June, 2021), ymd(12, June, 2021));
     push("y2021_feb29", ymd(29, February, 2021), ymd(29, February, 2021));
+    push("y2020_mar01_feb29", ymd(1, March, 2020), md(29, February));
+    push("y2024_dec24_feb29", ymd(24, December, 2024), md(29, February));
+    push("dec31_p2", with_off(md(31, December), 2, WeekDayOffset::None), with_off(md(31, December), 2, WeekDayOffset::None));
     // open end written `Jun 12+` (the parser stores Dec 31 / 9999 Dec 31 as end)
     push("jun12_plus", md(12, June), md(31, December));
     push("y2021_jun12_plus", ymd(12, June, 2021), ymd(31, December, 9999));
@@ -230,14 +243,51 @@ pub fn dated_family(thorough: bool) -> Vec<(String, MonthdayRange)> {
     out
 }
 
+/// A day selector is the conjunction of its four groups, each group the disjunction of its entries,
+/// an empty group places no constraint (the per-entry filters are decided by engine K / c01d).
+pub fn selector_conjunction(sel: &DaySelector) {
+    let (lo, hi) = window();
+    let d = fresh_date("d", lo, hi);
+    let ctx = context();
+    let got = sel.filter(d, &ctx);
+    let group = |empty: bool, any: bool| empty || any;
+    let want = group(sel.year.is_empty(), sel.year.iter().any(|x| x.filter(d, &ctx)))
+        && group(sel.monthday.is_empty(), sel.monthday.iter().any(|x| x.filter(d, &ctx)))
+        && group(sel.week.is_empty(), sel.week.iter().any(|x| x.filter(d, &ctx)))
+        && group(sel.weekday.is_empty(), sel.weekday.iter().any(|x| x.filter(d, &ctx)));
+    vrt::check("dated range: a rule applies on a day iff the day satisfies all of its selector groups (each group: any of its entries)", SymBool::Const(got == want));
+    let all_empty = sel.year.is_empty() && sel.monthday.is_empty() && sel.week.is_empty() && sel.weekday.is_empty();
+    vrt::check("dated range: is_empty iff no group has an entry", SymBool::Const(sel.is_empty() == all_empty));
+}
+
 pub fn templates_dated(thorough: bool) -> Vec<Template> {
-    dated_family(thorough)
+    let mut out: Vec<Template> = dated_family(thorough)
         .into_iter()
         .map(|(id, sel)| {
             let desc = format!("MonthdayRange::Date filter on every day 2019-01-01..=2025-12-31 of `{sel}`");
             Template::new(id, desc, move || dated_filter(&sel))
         })
-        .collect()
+        .collect();
+    for (id, sel) in selector_family(thorough) {
+        if id.starts_with("dated_") && !thorough {
+            continue;
+        }
+        let desc = format!("DaySelector conjunction of groups on every day 2019..=2025 of `{sel}`");
+        out.push(Template::new(format!("conj_{id}"), desc, move || selector_conjunction(&sel)));
+    }
+    // all four groups at once, two entries in two of them
+    use Month::*;
+    let mut four = DaySelector::default();
+    four.year.push(YearRange { range: Year(2020)..=Year(2022), step: 1 });
+    four.year.push(YearRange { range: Year(2024)..=Year(2024), step: 1 });
+    four.monthday.push(MonthdayRange::Month { range: June..=July, year: None });
+    four.week.push(WeekRange { range: WeekNum(24)..=WeekNum(27), step: 1 });
+    four.weekday.push(wd(Weekday::Mon, Weekday::Wed));
+    four.weekday.push(WeekDayRange::Holiday { kind: HolidayKind::Public, offset: 0 });
+    out.push(Template::new("conj_all_four_groups", format!("DaySelector conjunction of groups on every day 2019..=2025 of `{four}`"), move || selector_conjunction(&four)));
+    let none = DaySelector::default();
+    out.push(Template::new("conj_empty", "empty day selector matches every day".to_string(), move || selector_conjunction(&none)));
+    out
 }
 
 // ------------------------------------------------------------------------------------------------
@@ -340,13 +390,29 @@ pub fn selector_family(thorough: bool) -> Vec<(String, DaySelector)> {
 
 pub fn templates_hint(thorough: bool) -> Vec<Template> {
     let span = if thorough { 800 } else { 370 };
-    selector_family(thorough)
+    let mut out: Vec<Template> = selector_family(thorough)
         .into_iter()
         .map(|(id, sel)| {
             let desc = format!("next_change_hint lemma for every d in 2019..=2025 and d2 in d+1..=d+{span} of day selector `{sel}`");
             Template::new(id, desc, move || hint_lemma(&sel, span))
         })
-        .collect()
+        .collect();
+    // the same lemma at the start of the supported date range
+    for (id, sel) in selector_family(thorough) {
+        if !(id.starts_with("dated_") || id == "jun" || id == "week24" || id == "dec") {
+            continue;
+        }
+        let desc = format!("next_change_hint lemma for every d in 1899-11-01..=1901-03-01 and d2 in d+1..=d+{span} of day selector `{sel}`");
+        out.push(Template::new(format!("{id}@1900"), desc, move || {
+            WINDOW_1900.with(|w| w.set(true));
+            let r = std::panic::catch_unwind(std::panic::AssertUnwindSafe(|| hint_lemma(&sel, span)));
+            WINDOW_1900.with(|w| w.set(false));
+            if let Err(p) = r {
+                std::panic::resume_unwind(p);
+            }
+        }));
+    }
+    out
 }
 
 // ------------------------------------------------------------------------------------------------
